@@ -493,7 +493,9 @@ def build_other(b: Builder):
                 dflt = ("7", 7)
             if key == "gord":
                 # needs Default + PartialOrd for the generic closure bodies
-                d.inner = Inner("T", "i32", "other", generics="<T: Ord + Copy + Default + ::core::fmt::Debug + From<i8>>", inst="<i32>", carrier="i32",
+                # odd variants also spell, on the parameter, the very traits the derives add as bounds themselves (FromStr, Display)
+                extra_b = " + ::core::str::FromStr + ::core::fmt::Display" if variant in (1, 3) else ""
+                d.inner = Inner("T", "i32", "other", generics="<T: Ord + Copy + Default + ::core::fmt::Debug + From<i8>%s>" % extra_b, inst="<i32>", carrier="i32",
                                 caps=inner.caps)
                 gpred = "*x != T::from(13i8)"
                 gcond = gpred
